@@ -552,7 +552,10 @@ def main(tier, seed):
     # sanity / vacuity: the named deviation must be caught by the invariant
     run_mc(chk, "a_dev", a, expect_error=("DeferredExactlyOnceInOrder", "NothingDueLeftUnlessRaise"), fraises_sets="{{2}}", maxlevel=5, drop=True)
     # R: spec -> code
-    walks = replay_graph(chk, "a4", "a", a, traises_sets="{{}, {2}}", fraises_sets="{{2}, {1}}", maxlevel=5 if thorough else 4)
+    # (level 5 of this configuration has millions of edges: its edge cover does not fit a trace-validation run; thorough widens the
+    # raising sets instead of the depth)
+    walks = replay_graph(chk, "a4", "a", a, traises_sets="{{}, {2}, {2, 3}}" if thorough else "{{}, {2}}",
+                         fraises_sets="{{}, {2}, {1}, {1, 2}}" if thorough else "{{2}, {1}}", maxlevel=4)
     walks += replay_graph(chk, "r4", "r", r, traises_sets="{{}}", times="{1}", deltas="{1}", steps="{0, 1, 2, 3}", maxlevel=6 if thorough else 5)
     # T: code -> spec
     traces = []
